@@ -1,0 +1,14 @@
+//go:build verif
+
+package pppoe
+
+import "context"
+
+// Verification hook for property C16 (add-only; compiled only with -tags verif).
+
+// VerifC16CleanupLoop runs the server's real idle-session cleanup loop (the
+// goroutine Start launches next to the receive loop) until ctx is cancelled.
+// Under testing/synctest its 30 s ticker follows virtual time, so the harness
+// sees exactly what one or more ticks of the production loop do to idle
+// sessions - including whatever the loop releases on their behalf.
+func (s *Server) VerifC16CleanupLoop(ctx context.Context) { s.cleanupLoop(ctx) }
